@@ -9,6 +9,11 @@
 //                                              The part after '#' (the std::hash word the model was given) is ignored here:
 //                                              the driver computes std::hash itself and reports it under LH.
 //   tuple     T(v,v,...)     pair  P(v,v)     variant  V<k>(v)     unique_ptr/shared_ptr  U(v)     tuple_operators type  O(v,...)
+//   OWNERSHIP FORM of a pointer: a letter between U and ( says how the pointer came to refer to its pointee
+//             U(v) make_unique / make_shared | Uc(v) a copy of another shared_ptr (unique_ptr: move-constructed from another)
+//             | Un(v) adopted from new | Ua(v) NON-OWNING alias: shared_ptr<T>(shared_ptr<void>(), &object) — non-null, use_count() == 0
+//             (unique_ptr: release() + reset()) | Uo(v) owning alias shared_ptr<T>(owner, owner.get()) | Uu(v) shared_ptr made from a
+//             unique_ptr | Uk(v) moved from another pointer.  Never null.  hash and == must not depend on the form.
 //   Z         a variant that is valueless_by_exception() (only for variants with the alternative K, whose constructor can throw)
 // Cases:
 //   leaf l;l;...            -> LH h,h,...                       std::hash of each leaf (used to instantiate the model's h)
@@ -17,6 +22,10 @@
 //   set TYPE v;v;... v;v;...-> S size found-bits                 unordered_set: insert the first list, find every value of the second
 //   map TYPE v;v;... v;v;...-> M size idx,idx,...                unordered_map<TYPE,int>: emplace(v_i, i), then find
 //   a SQ x                  -> A eq hx hy                        a copy of a shared_ptr compares equal and hashes equal
+//   al TYPE x FORMS         -> AL eq hx hy S f size M f size LH ...   (shared_ptr-only types) y = a TWIN of x: the same structure, equal leaves,
+//        every (outermost) shared_ptr of y refers to the SAME object as the one of x, in the ownership form FORMS[k mod length] for the k-th
+//        pointer (c copy, a non-owning alias, o owning alias, k moved from a copy): x == y in C++.  eq: x == y; hash words; S: a set holding x
+//        finds y, its size after y was inserted too; M: the same for a map
 //   h TYPE CODE a b v;v;... -> HH hz hy EQ e OPS ...... F f1 f2 size LH ...   (TYPE = P or Q) an object with a HISTORY:
 //        built from a, brought to the value b IN PLACE, then compared with a freshly built b (y).  CODE = 4 letters:
 //        1 first use of x   n none | d nitro::lang::hash(x) | s x inserted into and looked up in an unordered_set
@@ -97,6 +106,13 @@ struct OV : nl::tuple_operators<OV>
     VT v; int i;
     OV(VT v, int i) : v(std::move(v)), i(i) {}
     auto as_tuple() { return std::tie(v, i); }
+};
+
+struct OS : nl::tuple_operators<OS>   // a mix-in type with a shared_ptr member (its == and < compare the pointers, its hash the pointee)
+{
+    std::shared_ptr<int> p; int i;
+    OS(std::shared_ptr<int> p, int i) : p(std::move(p)), i(i) {}
+    auto as_tuple() { return std::tie(p, i); }
 };
 
 // ------------------------------------------------------------------ parsing a value of a given type
@@ -271,13 +287,55 @@ template <typename... Ts> struct Parse<std::variant<Ts...>>
         return r;
     }
 };
+// owners of the objects that non-owning pointers (form a) and copies (form c) refer to; emptied at the start of every case
+static std::vector<std::shared_ptr<void>> g_keep;
+static char ptr_form(Cur& c)
+{
+    c.eat('U');
+    char f = 0;
+    if (c.ok && c.i < c.s.size() && c.s[c.i] != '(') { f = c.s[c.i]; c.i++; }
+    c.eat('(');
+    return f;
+}
 template <typename T> struct Parse<std::unique_ptr<T>>
 {
-    static std::unique_ptr<T> get(Cur& c) { c.eat("U("); auto r = std::make_unique<T>(Parse<T>::get(c)); c.eat(')'); return r; }
+    static std::unique_ptr<T> get(Cur& c)
+    {
+        char f = ptr_form(c);
+        std::unique_ptr<T> r;
+        switch (f)
+        {
+        case 0: r = std::make_unique<T>(Parse<T>::get(c)); break;
+        case 'n': r = std::unique_ptr<T>(new T(Parse<T>::get(c))); break;
+        case 'a': { auto t = std::make_unique<T>(Parse<T>::get(c)); r.reset(t.release()); break; }
+        case 'c': case 'k': { auto t = std::make_unique<T>(Parse<T>::get(c)); std::unique_ptr<T> u(std::move(t)); r = std::move(u); break; }
+        case 'o': case 'u': { std::unique_ptr<T> t(new T(Parse<T>::get(c))); r.swap(t); break; }
+        default: c.ok = false; r = std::make_unique<T>(Parse<T>::get(c)); break;
+        }
+        c.eat(')');
+        return r;
+    }
 };
 template <typename T> struct Parse<std::shared_ptr<T>>
 {
-    static std::shared_ptr<T> get(Cur& c) { c.eat("U("); auto r = std::make_shared<T>(Parse<T>::get(c)); c.eat(')'); return r; }
+    static std::shared_ptr<T> get(Cur& c)
+    {
+        char f = ptr_form(c);
+        std::shared_ptr<T> r;
+        switch (f)
+        {
+        case 0: r = std::make_shared<T>(Parse<T>::get(c)); break;
+        case 'c': { auto t = std::make_shared<T>(Parse<T>::get(c)); g_keep.push_back(t); r = t; break; }
+        case 'n': r = std::shared_ptr<T>(new T(Parse<T>::get(c))); break;
+        case 'a': { auto t = std::make_shared<T>(Parse<T>::get(c)); g_keep.push_back(t); r = std::shared_ptr<T>(std::shared_ptr<void>(), t.get()); break; }
+        case 'o': { auto t = std::make_shared<T>(Parse<T>::get(c)); r = std::shared_ptr<T>(t, t.get()); break; }
+        case 'u': r = std::shared_ptr<T>(std::make_unique<T>(Parse<T>::get(c))); break;
+        case 'k': { auto t = std::make_shared<T>(Parse<T>::get(c)); r = std::move(t); break; }
+        default: c.ok = false; r = std::make_shared<T>(Parse<T>::get(c)); break;
+        }
+        c.eat(')');
+        return r;
+    }
 };
 template <> struct Parse<P>
 {
@@ -342,6 +400,17 @@ template <> struct Parse<M>
         return M(a, g, m, e, j, w, x, y);
     }
 };
+template <> struct Parse<OS>
+{
+    static OS get(Cur& c)
+    {
+        c.eat("O(");
+        auto p = Parse<std::shared_ptr<int>>::get(c); c.eat(',');
+        int i = Parse<int>::get(c);
+        c.eat(')');
+        return OS(std::move(p), i);
+    }
+};
 template <> struct Parse<E>
 {
     static E get(Cur& c) { c.eat("O()"); return E(); }
@@ -367,6 +436,43 @@ template <typename T> struct has_ptr<std::unique_ptr<T>> : std::true_type {};
 template <typename T> struct has_ptr<std::shared_ptr<T>> : std::true_type {};
 template <typename... Ts> struct has_ptr<std::tuple<Ts...>> : std::integral_constant<bool, (has_ptr<Ts>::value || ...)> {};
 template <typename A, typename B> struct has_ptr<std::pair<A, B>> : std::integral_constant<bool, has_ptr<A>::value || has_ptr<B>::value> {};
+template <> struct has_ptr<OS> : std::true_type {};
+
+// a TWIN of a value: equal leaves, every outermost shared_ptr refers to the same object in another ownership form
+struct Forms { const std::string& f; std::size_t k = 0; char next() { return f.empty() ? 'c' : f[k++ % f.size()]; } };
+template <typename T> struct Twin { static T make(const T& x, Forms&) { return x; } };
+template <typename T> struct Twin<std::shared_ptr<T>>
+{
+    static std::shared_ptr<T> make(const std::shared_ptr<T>& x, Forms& f)
+    {
+        switch (f.next())
+        {
+        case 'a': return std::shared_ptr<T>(std::shared_ptr<void>(), x.get());   // non-null, owns nothing
+        case 'o': return std::shared_ptr<T>(x, x.get());
+        case 'k': { std::shared_ptr<T> t = x; std::shared_ptr<T> u(std::move(t)); return u; }
+        default: return x;
+        }
+    }
+};
+template <typename... Ts> struct Twin<std::tuple<Ts...>>
+{
+    template <std::size_t... I> static std::tuple<Ts...> make_i(const std::tuple<Ts...>& x, Forms& f, std::index_sequence<I...>)
+    {
+        (void)x; (void)f;
+        return std::tuple<Ts...>{ Twin<Ts>::make(std::get<I>(x), f)... };   // braced list: left to right
+    }
+    static std::tuple<Ts...> make(const std::tuple<Ts...>& x, Forms& f) { return make_i(x, f, std::index_sequence_for<Ts...>{}); }
+};
+template <typename A, typename B> struct Twin<std::pair<A, B>>
+{
+    static std::pair<A, B> make(const std::pair<A, B>& x, Forms& f)
+    {
+        A a = Twin<A>::make(x.first, f);
+        B b = Twin<B>::make(x.second, f);
+        return std::pair<A, B>(std::move(a), std::move(b));
+    }
+};
+template <> struct Twin<OS> { static OS make(const OS& x, Forms& f) { return OS(Twin<std::shared_ptr<int>>::make(x.p, f), x.i); } };
 
 static std::string hex16(std::uint64_t v)
 {
@@ -494,6 +600,32 @@ template <typename T> std::string run_typed(const std::vector<std::string>& w)
     return "BADCASE";
 }
 
+// ------------------------------------------------------------------ equal pointers in different ownership forms
+template <typename T> std::string run_alias(const std::vector<std::string>& w)
+{
+    if (w.size() != 4) return "BADCASE";
+    for (char ch : w[3]) if (ch != 'c' && ch != 'a' && ch != 'o' && ch != 'k') return "BADCASE";
+    std::vector<std::uint64_t> lx;
+    auto x = parse_all<T>(w[2], lx);
+    if (!x) return "BADCASE";
+    Forms f{ w[3] };
+    T y = Twin<T>::make(*x, f);
+    std::string r = std::string("AL ") + (*x == y ? "1" : "0") + " " + hex16(nl::hash(*x)) + " " + hex16(nl::hash(y));
+    if (nl::hash_wrapper<T>()(y) != nl::hash(y)) r += " WRAPPER-DIFFERS";
+    nl::unordered_set<T> s;
+    s.insert(*x);
+    bool f1 = s.find(y) != s.end() && s.count(y) == 1;
+    s.insert(y);
+    r += std::string(" S ") + (f1 ? "1" : "0") + " " + std::to_string(s.size());
+    nl::unordered_map<T, int> m;
+    m.emplace(*x, 7);
+    auto it = m.find(y);
+    bool f2 = it != m.end() && it->second == 7;
+    m.emplace(y, 8);
+    r += std::string(" M ") + (f2 ? "1" : "0") + " " + std::to_string(m.size());
+    return r + " LH " + lh_str(lx, {});
+}
+
 // ------------------------------------------------------------------ objects with a history (P and Q)
 template <typename T> struct Mut;
 template <> struct Mut<P>
@@ -577,12 +709,28 @@ using UP = std::unique_ptr<P>;
 using SQ = std::shared_ptr<Q>;
 using TU = std::tuple<std::unique_ptr<int>, std::shared_ptr<std::string>>;
 using PV = std::pair<std::unique_ptr<V3>, int>;
+using SI = std::shared_ptr<int>;
+using SS = std::shared_ptr<std::string>;
+using TS = std::tuple<std::shared_ptr<int>, std::string, std::shared_ptr<std::string>>;
+using PS = std::pair<std::shared_ptr<std::string>, int>;
 using TV = std::tuple<int, VT>;
 using PVT = std::pair<VT, int>;
 using UV = std::unique_ptr<VT>;
 
 static std::string run_case(const std::vector<std::string>& w)
 {
+    g_keep.clear();
+    if (w.size() == 4 && w[0] == "al")
+    {
+        const std::string& t = w[1];
+        if (t == "SI") return run_alias<SI>(w);
+        if (t == "SS") return run_alias<SS>(w);
+        if (t == "SQ") return run_alias<std::shared_ptr<Q>>(w);
+        if (t == "TS") return run_alias<TS>(w);
+        if (t == "PS") return run_alias<PS>(w);
+        if (t == "OS") return run_alias<OS>(w);
+        return "BADCASE";
+    }
     if (w.size() == 2 && w[0] == "leaf")
     {
         // every leaf is parsed by its own kind letter
@@ -638,6 +786,7 @@ static std::string run_case(const std::vector<std::string>& w)
     TY("PR", PR) TY("PI2", PI2) TY("PRN", PRN) TY("V3", V3)
     TY("UP", UP) TY("SQ", SQ) TY("TU", TU) TY("PV", PV)
     TY("M", M) TY("M2", M2) TY("VT", VT) TY("TV", TV) TY("PVT", PVT) TY("OV", OV) TY("UV", UV)
+    TY("SI", SI) TY("SS", SS) TY("TS", TS) TY("PS", PS) TY("OS", OS)
 #undef TY
     return "BADCASE";
 }
